@@ -143,7 +143,10 @@ def depends(
         for dep in deps:
             grouped[id(dep.owner)].append(dep)
         for group in grouped.values():
-            group[0].owner.param.watch(cb, [dep.name for dep in group])
+            # a Parameter given twice (positionally and as a keyword) is still
+            # one dependency: watch each name once
+            names = list(dict.fromkeys(dep.name for dep in group))
+            group[0].owner.param.watch(cb, names)
 
     _dinfo = getattr(func, '_dinfo', {})
     _dinfo.update({'dependencies': dependencies,
